@@ -29,8 +29,9 @@ fn spec() -> Spec {
 fn run_case(_kind: &str, idx: u64, rng: &mut Rng, mon: &mut Mon, _tier: Tier) {
     let robot = gen_robot(rng, idx, RobotMode::All, 0.15);
     let rp = robot.rp;
-    let qclass = rng.usize(4);
-    let q = joints_class(rng, qclass);
+    let qclass = rng.usize(5);
+    // class 4: exact multiples of a right angle (flange orientations that are exact half / quarter turns)
+    let q = if qclass == 4 { std::array::from_fn(|_| rng.int(-4, 4) as f64 * std::f64::consts::FRAC_PI_2) } else { joints_class(rng, qclass) };
     let kin = OPWKinematics::new(to_params(&rp));
     let reach = rp.reach();
     // forward() adds q2+q3+psi3 before taking the sine: for |q| >> 2pi that sum is rounded at
@@ -45,7 +46,7 @@ fn run_case(_kind: &str, idx: u64, rng: &mut Rng, mon: &mut Mon, _tier: Tier) {
     if rp.b != 0.0 {
         mon.count("b_nonzero");
     }
-    if qclass >= 2 {
+    if qclass == 2 || qclass == 3 {
         mon.count("big_q");
     }
     mon.count(&format!("robot_class.{}", robot.class));
@@ -123,7 +124,7 @@ fn run_case(_kind: &str, idx: u64, rng: &mut Rng, mon: &mut Mon, _tier: Tier) {
     let cut = rng.usize(5) + 1; // links 1..cut keep their pose
     let mut q2 = q;
     for j in cut..6 {
-        q2[j] = joints_class(rng, qclass)[j];
+        q2[j] = joints_class(rng, qclass.min(3))[j];
     }
     let links2 = kin.forward_with_joint_poses(&q2);
     for i in 0..cut {
